@@ -857,6 +857,19 @@ class Evaluator:
             if st.exc is not None:
                 e = st.exc.func if isinstance(st.exc, ast.Call) else st.exc
                 name = ast.unparse(e)
+                # raise _make_error(...): the exception class is the one the module's helper constructs on every return
+                if isinstance(st.exc, ast.Call) and isinstance(e, ast.Name) and fr.fi is not None:
+                    try:
+                        rr = self.m.resolve_name(fr.fi.module, e.id)
+                    except Exception:
+                        rr = (None,)
+                    if rr and rr[0] == 'func':
+                        made = {ast.unparse(r_.value.func) for r_ in ast.walk(rr[1].node)
+                                if isinstance(r_, ast.Return) and isinstance(r_.value, ast.Call)}
+                        plain = [r_ for r_ in ast.walk(rr[1].node) if isinstance(r_, ast.Return)
+                                 and not isinstance(r_.value, ast.Call)]
+                        if len(made) == 1 and not plain:
+                            name = made.pop()
             fr.raises.append((list(pc), name, st))
             return False
         if isinstance(st, ast.If):
